@@ -481,7 +481,61 @@ def w_trees(ctx, rng, i):
     ctx.count_case(("tree", n, how, i), nontrivial=n >= 3, sample={"n": n, "edges": edges, "root": root} if i < 2 else None)
 
 
+def w_grids(ctx, rng, i):
+    """Predefined constructions: 2D grids (4-neighbour stencil), spanning trees of grids, depth images with masks."""
+    import menpo.shape as ms
+    from menpo.image import Image, MaskedImage
+    shp = (int(rng.integers(1, 6)), int(rng.integers(2, 6)))
+    n = shp[0] * shp[1]
+    idx = np.arange(n).reshape(shp)
+    und = [(int(idx[r, c]), int(idx[r, c + 1])) for r in range(shp[0]) for c in range(shp[1] - 1)] + \
+          [(int(idx[r, c]), int(idx[r + 1, c])) for r in range(shp[0] - 1) for c in range(shp[1])]
+    kind = i % 4
+    if kind == 0:
+        g = ms.PointUndirectedGraph.init_2d_grid(shp, spacing=float(rng.uniform(0.5, 3)) if rng.random() < 0.5 else None)
+        E = judge_structure(ctx, g, n, und, False, "PointUndirectedGraph")
+        judge_cycles(ctx, g, n, E, False, "PointUndirectedGraph")
+        exp_pts = np.stack(np.meshgrid(np.arange(shp[0]), np.arange(shp[1]), indexing="ij"), -1).reshape(-1, 2)
+        sp_ = g.points / np.where(exp_pts == 0, 1, exp_pts)
+        if not np.allclose(g.points[0], 0) or g.points.shape != (n, 2):
+            ctx.fail("grid_points_wrong", cls="PointUndirectedGraph")
+        judge_masks(ctx, g, n, [rng.random(n) < 0.7 for _ in range(3)])
+    elif kind == 1:
+        g = ms.PointDirectedGraph.init_2d_grid(shp)
+        both = und + [(b, a) for a, b in und]
+        E = judge_structure(ctx, g, n, both, True, "PointDirectedGraph")
+        judge_masks(ctx, g, n, [rng.random(n) < 0.7 for _ in range(3)])
+    elif kind == 2:
+        if shp[0] >= 2 and shp[1] >= 2:      # a one-row grid has no triangles to span
+            root = int(rng.integers(0, n)) if rng.random() < 0.5 else None
+            t = ms.PointTree.init_2d_grid(shp, root_vertex=root)
+            te = [tuple(int(v) for v in e) for e in np.asarray(t.edges).reshape(-1, 2)]
+            # a spanning tree of the triangulated grid rooted at the root: n-1 real edges, everything reachable
+            tri_adj = set()
+            tm = ms.TriMesh.init_2d_grid(shp)
+            for a, b, c in np.asarray(tm.trilist).tolist():
+                tri_adj.update([tuple(sorted((a, b))), tuple(sorted((b, c))), tuple(sorted((c, a)))])
+            r0 = int(t.root_vertex)
+            if len(te) != n - 1 or any(tuple(sorted(e)) not in tri_adj for e in te) or len(ref.reachable(n, te, True, r0)) != n:
+                ctx.fail("grid_tree_is_not_a_spanning_tree_of_the_grid", cls="PointTree")
+            else:
+                judge_tree(ctx, t, n, canon_edges(te, True), r0, "PointTree")
+            if root is not None and r0 != root:
+                ctx.fail("tree_root_wrong", cls="PointTree", mech="init_2d_grid")
+    else:
+        shp = (int(rng.integers(2, 6)), int(rng.integers(2, 6)))
+        msk = gen.mask(rng, shp, ["block", "halfplane", "all"][rng.integers(0, 3)])
+        depth = MaskedImage(rng.random((1,) + shp), mask=msk) if rng.random() < 0.7 else Image(rng.random((1,) + shp))
+        for cls in (ms.PointUndirectedGraph, ms.PointDirectedGraph):
+            g = cls.init_from_depth_image(depth)
+            k = int(msk.sum()) if isinstance(depth, MaskedImage) else shp[0] * shp[1]
+            if g.n_points != k or g.points.shape[1] != 3:
+                ctx.fail("depth_image_graph_has_the_wrong_points", cls=cls.__name__)
+    ctx.count_case(("grid", kind, shp), nontrivial=True)
+
+
 WORKLOADS = [
+    Workload("grids", w_grids, quick=200, thorough=4000),
     Workload("exhaustive_small", w_exhaustive, quick=N_SMALL, thorough=N_SMALL, exhaustive=True),
     Workload("random_graphs", w_random, quick=600, thorough=20000),
     Workload("random_trees", w_trees, quick=800, thorough=30000),
